@@ -13,6 +13,7 @@ package main
 import (
 	"bytes"
 	"encoding/json"
+	"errors"
 	"fmt"
 	"io"
 	"math/rand"
@@ -55,6 +56,12 @@ type c03Case struct {
 	// none of them) and File.ReadFromWithConcurrency, on fresh Files and on the Files all callers share (those
 	// hold the File's exclusive lock while other callers' ReadAt / WriteAt / Stat on the same File wait)
 	Xfer bool `json:"transfers,omitempty"`
+	// Status: the mix also holds calls whose request the peer answers with a per-request STATUS of a PRNG code out of
+	// 0…9, 255, 256 (code 0 only where STATUS is the regular reply) while other requests are outstanding: Stat, Lstat,
+	// ReadLink, RealPath, StatVFS, OpenFile, Mkdir, RemoveDirectory, Rename, Chmod, and File.Stat / single-chunk
+	// ReadAt / WriteAt on a file opened for the purpose. The code is part of the request's path ("st<code>x<k>",
+	// handle "h:sf<code>x<k>"), so the reply is still built from the content of the request alone.
+	Status bool `json:"status_replies,omitempty"`
 
 	// family "ctx" (cli_c03ctx.go): a ReadDirContext is cancelled with a request outstanding, answered late
 	Kind   string `json:"kind,omitempty"`   // "" (permuting peer) | "ctx"
@@ -231,8 +238,82 @@ type c03Server struct {
 	dirReads map[string]int
 }
 
+// c03StatusCodes: the codes of the protocol (0…8), the first one beyond it, and two values a switch over the known
+// codes or a byte-sized table does not expect.
+var c03StatusCodes = []uint32{1, 2, 3, 4, 5, 6, 7, 8, 9, 255, 256, 0}
+
+// c03StatusOf: does the request ask (by its content) for a STATUS verdict, and of which code.
+func c03StatusOf(q cliReq) (code uint32, tag string, ok bool) {
+	name := ""
+	switch q.Typ {
+	case wire.Read, wire.Write, wire.Fstat, wire.Fsetstat:
+		if !strings.HasPrefix(q.Handle, "h:sf") {
+			return 0, "", false
+		}
+		name = q.Handle[4:]
+	case wire.Close, wire.Readdir:
+		return 0, "", false
+	default:
+		if !strings.HasPrefix(q.Path, "st") {
+			return 0, "", false
+		}
+		name = q.Path[2:]
+	}
+	i := strings.IndexByte(name, 'x')
+	if i <= 0 {
+		return 0, "", false
+	}
+	for _, ch := range name[:i] {
+		if ch < '0' || ch > '9' {
+			return 0, "", false
+		}
+	}
+	return uint32(c03Num(name[:i])), "verdict-" + name, true
+}
+
+// c03StatusWant: what a call returns whose request got a STATUS of this code (the package maps EOF, NO_SUCH_FILE and
+// PERMISSION_DENIED to the sentinel values of io and os, OK to nil, and hands out every other code in a *StatusError).
+func c03StatusWant(code uint32) string {
+	switch code {
+	case 0:
+		return "nil"
+	case 1:
+		return "EOF"
+	case 2:
+		return "file does not exist"
+	case 3:
+		return "permission denied"
+	}
+	return fmt.Sprintf("status %d", code)
+}
+
+func c03StatusGot(err error, tag string) string {
+	// (RemoveDirectory wraps the verdict in an *os.PathError: "an error carrying that code" is asked through errors.Is / As)
+	switch {
+	case err == nil:
+		return "nil"
+	case errors.Is(err, io.EOF):
+		return "EOF"
+	case errors.Is(err, os.ErrNotExist):
+		return "file does not exist"
+	case errors.Is(err, os.ErrPermission):
+		return "permission denied"
+	}
+	var se *sftp.StatusError
+	if errors.As(err, &se) {
+		if !strings.Contains(se.Error(), tag) {
+			return fmt.Sprintf("status %d with the message of another request: %v", se.Code, se)
+		}
+		return fmt.Sprintf("status %d", se.Code)
+	}
+	return "another error: " + err.Error()
+}
+
 func (s *c03Server) reply(q cliReq) []byte {
 	id := q.ID
+	if code, tag, ok := c03StatusOf(q); ok {
+		return wire.Frame(wire.Status, wire.B{}.U32(id).U32(code).Str(tag).Str("en"))
+	}
 	switch q.Typ {
 	case wire.Open:
 		return wire.HandleFrame(id, "h:"+q.Path)
@@ -664,12 +745,17 @@ func c03Run(cs c03Case) (res c03Res) {
 					kinds = append(kinds, "writeto-fresh", "writeto-xsh", "readfrom-fresh", "readfrom-shared", "readfromconc-fresh", "readfromconc-shared",
 						"readat-xsh", "writeat-xsh", "fstat-xsh", "fstat-shared")
 				}
+				if cs.Status {
+					kinds = append(kinds, "st-stat", "st-lstat", "st-readlink", "st-realpath", "st-statvfs", "st-open", "st-mkdir", "st-rmdir", "st-rename", "st-chmod",
+						"st-fstat", "st-readat", "st-writeat")
+				}
 				kind := kinds[rng.Intn(len(kinds))]
 				if cs.Big && rng.Intn(4) != 0 {
 					kind = "writeat-shared-multi"
 				}
 				var got, want string
 				var opErr error
+				stCode := -1 // the code of the STATUS this call's request is answered with (st-… kinds)
 				off := k * c03Stride
 				run := func() {
 					switch kind {
@@ -924,6 +1010,85 @@ func c03Run(cs c03Case) (res c03Res) {
 							opErr = f.Close()
 							issue(fmt.Sprintf("t%d %s", wire.Close, h))
 						}
+					case "st-stat", "st-lstat", "st-readlink", "st-realpath", "st-statvfs", "st-open", "st-mkdir", "st-rmdir", "st-rename", "st-chmod":
+						// one request, answered with a STATUS of a PRNG code: the call returns THAT verdict
+						statusOnly := kind == "st-mkdir" || kind == "st-rmdir" || kind == "st-rename" || kind == "st-chmod"
+						codes := c03StatusCodes
+						if !statusOnly {
+							codes = codes[:len(codes)-1] // STATUS OK is not a reply to these requests (C20's subject)
+						}
+						code := codes[rng.Intn(len(codes))]
+						stCode = int(code)
+						path := fmt.Sprintf("st%dx%d", code, k)
+						var err error
+						switch kind {
+						case "st-stat":
+							_, err = client.Stat(path)
+							issue(fmt.Sprintf("t%d %s", wire.Stat, path))
+						case "st-lstat":
+							_, err = client.Lstat(path)
+							issue(fmt.Sprintf("t%d %s", wire.Lstat, path))
+						case "st-readlink":
+							_, err = client.ReadLink(path)
+							issue(fmt.Sprintf("t%d %s", wire.Readlink, path))
+						case "st-realpath":
+							_, err = client.RealPath(path)
+							issue(fmt.Sprintf("t%d %s", wire.Realpath, path))
+						case "st-statvfs":
+							_, err = client.StatVFS(path)
+							issue(fmt.Sprintf("ext statvfs@openssh.com %s ", path))
+						case "st-open":
+							var f *sftp.File
+							f, err = client.Open(path)
+							issue(fmt.Sprintf("open %s %d", path, wire.FRead))
+							if err == nil && f != nil {
+								f.Close()
+								issue(fmt.Sprintf("t%d h:%s", wire.Close, path))
+							}
+						case "st-mkdir":
+							err = client.Mkdir(path)
+							issue(fmt.Sprintf("t%d %s", wire.Mkdir, path))
+						case "st-rmdir":
+							err = client.RemoveDirectory(path)
+							issue(fmt.Sprintf("t%d %s", wire.Rmdir, path))
+						case "st-rename":
+							err = client.Rename(path, fmt.Sprintf("to%d", k))
+							issue(fmt.Sprintf("rename %s to%d", path, k))
+						case "st-chmod":
+							err = client.Chmod(path, 0o640)
+							issue(fmt.Sprintf("t%d %s", wire.Setstat, path))
+						}
+						got, want = c03StatusGot(err, fmt.Sprintf("verdict-%dx%d", code, k)), c03StatusWant(code)
+					case "st-fstat", "st-readat", "st-writeat":
+						// a file opened for the purpose; the request on its handle is answered with a STATUS of a PRNG code
+						codes := c03StatusCodes[:len(c03StatusCodes)-1]
+						if kind == "st-writeat" {
+							codes = c03StatusCodes
+						}
+						code := codes[rng.Intn(len(codes))]
+						stCode = int(code)
+						path := fmt.Sprintf("sf%dx%d", code, k)
+						h := "h:" + path
+						f, err := client.OpenFile(path, os.O_RDWR)
+						issue(fmt.Sprintf("open %s %d", path, wire.FRead|wire.FWrite))
+						if opErr = err; err != nil {
+							return
+						}
+						n := 1 + rng.Intn(mp)
+						switch kind {
+						case "st-fstat":
+							_, err = f.Stat()
+							issue(fmt.Sprintf("t%d %s", wire.Fstat, h))
+						case "st-readat":
+							_, err = f.ReadAt(make([]byte, n), int64(off))
+							issue(chunks(h, "read", off, n)...)
+						case "st-writeat":
+							_, err = f.WriteAt(cliPatternBytes(h, off, n), int64(off))
+							issue(chunks(h, "write", off, n)...)
+						}
+						got, want = c03StatusGot(err, fmt.Sprintf("verdict-%dx%d", code, k)), c03StatusWant(code)
+						opErr = f.Close()
+						issue(fmt.Sprintf("t%d %s", wire.Close, h))
 					case "write-read-own":
 						// File.Seek+Write+Seek+Read on the caller's own file (offset bookkeeping is C12; routing here)
 						f, h := own[c], fmt.Sprintf("h:own%d", c)
@@ -953,6 +1118,9 @@ func c03Run(cs c03Case) (res c03Res) {
 				cmu.Lock()
 				res.Calls++
 				res.OpHist[kind]++
+				if stCode >= 0 {
+					res.OpHist[fmt.Sprintf("answered-with-status-code/%03d", stCode)]++
+				}
 				cmu.Unlock()
 				if opErr != nil {
 					fail("error/"+kind, fmt.Sprintf("%s (k=%d) returned an error although its own request was answered successfully: %v", kind, k, opErr), map[string]any{"caller": c, "k": k})
@@ -1101,7 +1269,7 @@ func head(s []string, n int) []string {
 func checkC03(c *lib.Ctx) {
 	r := c.R
 	thorough := c.Tier == "thorough"
-	r.Rule = "family 1: run = (callers 1…16, reply order perm|reverse|delay|fifo, seed, MaxPacket, concurrent writes on/off, big multi-chunk writes, id counter started just below 2^32): every caller issues a PRNG mix of 18 self-identifying operations (Stat/Lstat/ReadLink/RealPath/Mkdir/Rename/ReadDir/StatVFS/Open+Close/File.Stat/ReadAt and WriteAt single- and multi-chunk on a shared and an own File/Write+Read) on one Client; the peer answers the requests outstanding at a quiescent moment in a PRNG permutation of a PRNG subset, strictly reversed, one at a time with delays, or in order. A run is non-trivial when at least one batch of ≥2 outstanding requests was answered out of arrival order; distinct by run parameters. Client options: the 72 combinations of MaxPacket constructor (MaxPacketUnchecked | MaxPacketChecked | the MaxPacket alias) × MaxConcurrentRequestsPerFile (1 | 2 | default) × UseConcurrentReads (not given | false | true) × UseFstat (not given | true | false) are dealt over the runs in rotation. Two runs in three add File transfers to the mix: File.WriteTo (from a PRNG offset to the end of a file of 0, 1, MaxPacket-1/+0/+1, 3·MaxPacket(+1) or PRNG bytes; sequential, or concurrent with its STAT/FSTAT and its speculative reads), File.ReadFrom (readers with Len, Size, Stat, *io.LimitedReader, or none of them) and File.ReadFromWithConcurrency (0, 1, 2, 3, 100) of the same sizes, each on a fresh File and on a File all callers share (the transfer holds the File's exclusive lock while other callers' ReadAt / WriteAt / Stat on the same File wait and must still get their own results); the wire must carry exactly the requests these calls imply (READs of a concurrent WriteTo beyond the chunk that reported EOF are allowed and counted). Family 3 (peer I/O disciplines, cli_iopeer.go): the family-1 mixes (3…16 callers, all reply modes, transfers in two runs of three, PRNG options) over a transport of chosen back-pressure — synchronous (a Write blocks until the other side has read all of it), 64-byte, 4 KiB, 1 MiB buffers, both directions — against a peer of a chosen I/O discipline: eager (reads in a goroutine of its own), batch1/2/3/8 (ONE thread: reads up to k requests — waiting as long as it takes only while it owes no reply, else 150 µs —, then writes the replies chosen by the reply mode, NOT reading while it writes, then returns to reading; it may stop reading in the middle of a frame), slow (k PRNG 1…4, think time ≤ 400 µs before every read and before writing), bytewise (batch2 reading and writing in pieces of 1…7 bytes); quick 56 runs, thorough 1344. Same oracles (nothing hangs within the hang budget, every call gets the reply to its own request, framing, Close returns). Family 2 (abandoned request): ReadDirContext is cancelled while its OPENDIR, first READDIR or second READDIR is outstanding (the peer holds it); the deferred CLOSE, 1…6 self-identifying follow-up calls of the same caller and the calls of 0/1/3/8 concurrent callers run; the peer answers the abandoned request late (regular reply or STATUS) before the j-th follow-up reply, j PRNG incl. 0 = before the CLOSE reply, or after all calls completed; three more calls follow; 8 (quick) / 25 (thorough) abandoned requests per run."
+	r.Rule = "family 1: run = (callers 1…16, reply order perm|reverse|delay|fifo, seed, MaxPacket, concurrent writes on/off, big multi-chunk writes, id counter started just below 2^32): every caller issues a PRNG mix of 18 self-identifying operations (Stat/Lstat/ReadLink/RealPath/Mkdir/Rename/ReadDir/StatVFS/Open+Close/File.Stat/ReadAt and WriteAt single- and multi-chunk on a shared and an own File/Write+Read) on one Client; the peer answers the requests outstanding at a quiescent moment in a PRNG permutation of a PRNG subset, strictly reversed, one at a time with delays, or in order. Three runs in four add PER-REQUEST STATUS replies to the mix: Stat, Lstat, ReadLink, RealPath, StatVFS, OpenFile, Mkdir, RemoveDirectory, Rename, Chmod, and File.Stat / single-chunk ReadAt / WriteAt on a file opened for the purpose, whose request (by its content: the code is part of the path) the peer answers with a STATUS of a PRNG code out of 0…8, 9, 255, 256 (0 only where STATUS is the regular reply) while the other callers' requests are outstanding, in every reply order; the failing call must return an error carrying exactly that code (io.EOF / os.ErrNotExist / os.ErrPermission for 1 / 2 / 3, a *StatusError with the code and the message built for this request otherwise, nil for 0), every other call its own result. A run is non-trivial when at least one batch of ≥2 outstanding requests was answered out of arrival order; distinct by run parameters. Client options: the 72 combinations of MaxPacket constructor (MaxPacketUnchecked | MaxPacketChecked | the MaxPacket alias) × MaxConcurrentRequestsPerFile (1 | 2 | default) × UseConcurrentReads (not given | false | true) × UseFstat (not given | true | false) are dealt over the runs in rotation. Two runs in three add File transfers to the mix: File.WriteTo (from a PRNG offset to the end of a file of 0, 1, MaxPacket-1/+0/+1, 3·MaxPacket(+1) or PRNG bytes; sequential, or concurrent with its STAT/FSTAT and its speculative reads), File.ReadFrom (readers with Len, Size, Stat, *io.LimitedReader, or none of them) and File.ReadFromWithConcurrency (0, 1, 2, 3, 100) of the same sizes, each on a fresh File and on a File all callers share (the transfer holds the File's exclusive lock while other callers' ReadAt / WriteAt / Stat on the same File wait and must still get their own results); the wire must carry exactly the requests these calls imply (READs of a concurrent WriteTo beyond the chunk that reported EOF are allowed and counted). Family 3 (peer I/O disciplines, cli_iopeer.go): the family-1 mixes (3…16 callers, all reply modes, transfers in two runs of three, PRNG options) over a transport of chosen back-pressure — synchronous (a Write blocks until the other side has read all of it), 64-byte, 4 KiB, 1 MiB buffers, both directions — against a peer of a chosen I/O discipline: eager (reads in a goroutine of its own), batch1/2/3/8 (ONE thread: reads up to k requests — waiting as long as it takes only while it owes no reply, else 150 µs —, then writes the replies chosen by the reply mode, NOT reading while it writes, then returns to reading; it may stop reading in the middle of a frame), slow (k PRNG 1…4, think time ≤ 400 µs before every read and before writing), bytewise (batch2 reading and writing in pieces of 1…7 bytes); quick 56 runs, thorough 1344. Same oracles (nothing hangs within the hang budget, every call gets the reply to its own request, framing, Close returns). Family 2 (abandoned request): ReadDirContext is cancelled while its OPENDIR, first READDIR or second READDIR is outstanding (the peer holds it); the deferred CLOSE, 1…6 self-identifying follow-up calls of the same caller and the calls of 0/1/3/8 concurrent callers run; the peer answers the abandoned request late (regular reply or STATUS) before the j-th follow-up reply, j PRNG incl. 0 = before the CLOSE reply, or after all calls completed; three more calls follow; 8 (quick) / 25 (thorough) abandoned requests per run."
 	var cases []c03Case
 	if c.Replay != "" {
 		var one c03Case
@@ -1149,13 +1317,13 @@ func checkC03(c *lib.Ctx) {
 					mps := []int{1 << 15, 1024, 64, 7}
 					// two runs in three include the File transfers (WriteTo / ReadFrom / ReadFromWithConcurrency)
 					cases = append(cases, withOpts(c03Case{Callers: callers, Mode: mode, Seed: c.Rand.Int63(), Ops: ops, MaxPacket: mps[c.Rand.Intn(len(mps))],
-						ConcW: c.Rand.Intn(2) == 0, WrapID: c.Rand.Intn(3) == 0, Xfer: c.Rand.Intn(3) != 0}))
+						ConcW: c.Rand.Intn(2) == 0, WrapID: c.Rand.Intn(3) == 0, Xfer: c.Rand.Intn(3) != 0, Status: c.Rand.Intn(4) != 0}))
 				}
 			}
 			// 16 (and 2…15) concurrent writers with large WRITE payloads: header and payload are separate writes
 			for _, callers := range []int{16, 8, 3} {
 				for _, mode := range []string{"perm", "reverse", "delay"} {
-					cases = append(cases, withOpts(c03Case{Callers: callers, Mode: mode, Seed: c.Rand.Int63(), Ops: ops / 4, MaxPacket: 1 << 15, ConcW: true, Big: true, WrapID: s%2 == 1}))
+					cases = append(cases, withOpts(c03Case{Callers: callers, Mode: mode, Seed: c.Rand.Int63(), Ops: ops / 4, MaxPacket: 1 << 15, ConcW: true, Big: true, WrapID: s%2 == 1, Status: true}))
 				}
 			}
 		}
@@ -1206,7 +1374,7 @@ func checkC03(c *lib.Ctx) {
 								mps = []int{64, 7} // every piece of 1…7 bytes is a Read / Write of its own
 							}
 							cs := c03Case{Callers: callers, Mode: modes[(n+m)%len(modes)], Seed: c.Rand.Int63(), Ops: ops, MaxPacket: mps[c.Rand.Intn(len(mps))],
-								ConcW: c.Rand.Intn(2) == 0, Xfer: c.Rand.Intn(3) != 0, Transport: tr, Peer: d}
+								ConcW: c.Rand.Intn(2) == 0, Xfer: c.Rand.Intn(3) != 0, Status: c.Rand.Intn(4) != 0, Transport: tr, Peer: d}
 							cs.MPOpt, cs.MaxReq = []string{"", "checked", "alias"}[c.Rand.Intn(3)], []int{0, 1, 2}[c.Rand.Intn(3)]
 							cs.Reads, cs.Fstat = []string{"", "off", "on"}[c.Rand.Intn(3)], []string{"", "on", "off"}[c.Rand.Intn(3)]
 							cases = append(cases, cs)
@@ -1344,6 +1512,7 @@ func checkC03(c *lib.Ctx) {
 		r.Hist(fmt.Sprintf("option/concurrent-writes/%v", cs.ConcW))
 		if cs.Kind != "ctx" {
 			r.Hist(fmt.Sprintf("transfers/%v", cs.Xfer))
+			r.Hist(fmt.Sprintf("per-request-status-replies/%v", cs.Status))
 			if cs.Xfer {
 				r.Hist(fmt.Sprintf("transfers/reads=%s,fstat=%s,max-requests=%d", dflt(cs.Reads, "default"), dflt(cs.Fstat, "default"), cs.MaxReq))
 			}
